@@ -21,7 +21,7 @@ RULE = (
     'when s_i = 0) compared with numpy.allclose defaults (rtol 1e-5, atol '
     '1e-8, the absolute term scaled down to 1e-6*T_min for minute values); T = T_min at and below the lowest knot; monotone non-decreasing '
     'over the sorted levels (relative slack 1e-9); continuity across knots; '
-    'scalar, list, array, reversed-view and permuted-array arguments agree to 1e-12 relative and each is held against the closed form; levels include 0.0, -0.0 and round values. Non-trivial: some level lies '
+    'scalar, list, array, reversed-view and permuted-array arguments agree to 1e-12 relative and each is held against the closed form; levels include 0.0, -0.0, round values and values 1-101 ulp inside the lowest and the highest knot. Non-trivial: some level lies '
     'above >= 2 knots and the conductivity contrast along the path is >= '
     '1e3; distinct = SHA-1 of the canonical case.'
 )
@@ -59,6 +59,16 @@ def cases(draw):
         levels.extend([zi, zi - 1e-6, zi + 1e-6])
     extra = draw(st.lists(st.floats(z[0] - 10.0, z[-1]), max_size=3))
     levels.extend(extra)
+    # a few ulp beside the lowest and the highest knot (quadrature
+    # abscissae are rounded: one of them fell below the lowest knot, fix
+    # 8975445) and beside one interior knot
+    ulps = draw(st.sampled_from([1, 2, 7, 50, 101]))
+    v = float(z[0])
+    w = float(z[-1])
+    for _ in range(ulps):
+        v = math.nextafter(v, math.inf)
+        w = math.nextafter(w, -math.inf)
+    levels.extend([v, w])
     # the peat surface and other round levels (a grid such as
     # linspace(-350, 400, 16) contains 0.0 exactly)
     levels.extend(v for v in (0.0, -1.0, 1.0, -100.0, 10.0, float(int(z[-1])))
